@@ -16,6 +16,8 @@ R-C13.5  partially_monomorphize_args agrees with its specification on the basic 
 R-C13.6  `instantiation_needs_unpacking` (the guard of `visit_TypeApply` against instantiations that turn the result into a row),
          interpreted on {result is the type variable or not} x {instantiated with tuple / None / numeric / struct type}: True
          exactly for a type-variable result instantiated with a tuple or None type.
+R-C13.7  `handle_implicit_self_arg` interpreted for a method `m[U, x: U](self, ...)` of a struct `S[T]`: after the method's own
+         parameters are moved behind the parent's, `x` is still typed by `U` (by the parameter that now has U's index).
 Not decided: run-time results of monomorphised code, HUGR validity.
 """
 
@@ -258,3 +260,60 @@ def run(ctx: Ctx) -> None:
                   "instead of the intended 'unsupported' error)")
     except (Unsupported, Raised) as e:
         ctx.undecided("R-C13.6", key, f.where, str(e))
+
+    # ------------------------------------------------------------ R-C13.7 a method's own parameters are moved behind the parent's -- with their types
+    hf = idx.find_func("handle_implicit_self_arg", "guppylang_internals.checker.func_checker")
+    key = f"{hf.qualname}#shifted-parameters-keep-their-meaning"
+    hps = [a.arg for a in hf.node.args.args]
+    tp_cls = idx.find_class("TypeParam", "guppylang_internals.tys.param")
+    cp_cls = idx.find_class("ConstParam", "guppylang_internals.tys.param")
+    try:
+        made: list = []
+
+        def mk_param(kind, cls):
+            def h(nd, e, env):
+                vals = [e.ev(x, env) for x in nd.args]
+                kws = {k.arg: e.ev(k.value, env) for k in nd.keywords if k.arg}
+                if kind == "type":
+                    t = Tok(f"TypeParam({vals[1]}@{vals[0]})", __class__="TypeParam", __classes__=cls.mro(), idx=vals[0], name=vals[1],
+                            must_be_copyable=vals[2] if len(vals) > 2 else kws.get("must_be_copyable"), must_be_droppable=vals[3] if len(vals) > 3 else kws.get("must_be_droppable"))
+                else:
+                    t = Tok(f"ConstParam({vals[1]}@{vals[0]})", __class__="ConstParam", __classes__=cls.mro(), idx=vals[0], name=vals[1],
+                            ty=vals[2] if len(vals) > 2 else kws.get("ty"), from_comptime_arg=kws.get("from_comptime_arg", False))
+                made.append(t)
+                return t
+            return h
+
+        def bound(i, name):  # a reference to the parameter with index i
+            t = Tok(f"BoundTypeVar({name}#{i})", __class__="BoundTypeVar", idx=i, display_name=name, __ident__=1)
+            # whatever transformer a repair uses: an index shift is modelled on the token itself
+            t.attrs["__methods__"] = {"transform": lambda r, a: Tok(f"BoundTypeVar({r.attrs['display_name']}#shifted)", __class__="BoundTypeVar", idx=None, display_name=r.attrs["display_name"], shifted_by=a[0])}
+            return t
+        U = Tok("TypeParam(U@0)", __class__="TypeParam", __classes__=tp_cls.mro(), idx=0, name="U", must_be_copyable=True, must_be_droppable=True)
+        x = Tok("ConstParam(x@1)", __class__="ConstParam", __classes__=cp_cls.mro(), idx=1, name="x", ty=bound(0, "U"), from_comptime_arg=False)
+        mapping = {"U": U, "x": x}
+        parent_T = Tok("TypeParam(T@0)", __class__="TypeParam", __classes__=tp_cls.mro(), idx=0, name="T", must_be_copyable=False, must_be_droppable=False,
+                       __methods__={"to_bound": lambda r, a: Tok("arg_T")})
+        self_defn = Tok("struct_S", params=[parent_T], __methods__={"check_instantiate": lambda r, a: Tok("S[T]")}, __ident__=1)
+        pctx = Tok("parsing_ctx", param_var_mapping=mapping, __ident__=1)
+        env = {hps[0]: Tok("self_arg", arg="self"), hps[1]: self_defn, hps[2]: pctx, "TypeParam": mk_param("type", tp_cls), "ConstParam": mk_param("const", cp_cls),
+               "check_function_arg": lambda nd, e, env: Tok("func_input"), "SelfParamsShadowedError": lambda nd, e, env: Tok("SelfParamsShadowedError")}
+        for p_ in hps[3:]:
+            env[p_] = "InputFlags.NoFlags"
+        out = PyEval(idx, hf.module.name, max_depth=6).run(hf.node.body, env)
+        if out[0] == "raise":
+            raise Raised(str(out[1]), str(out[1]))
+        after = pctx.attrs["param_var_mapping"]
+        new_U, new_x = after.get("U"), after.get("x")
+        x_ty = new_x.attrs.get("ty") if isinstance(new_x, Tok) else None
+        refers_to = x_ty.attrs.get("idx") if isinstance(x_ty, Tok) else None
+        shifted_by = x_ty.attrs.get("shifted_by") if isinstance(x_ty, Tok) else None
+        ok = isinstance(new_U, Tok) and new_U.attrs.get("idx") == 1 and isinstance(new_x, Tok) and new_x.attrs.get("idx") == 2 \
+            and (refers_to == new_U.attrs.get("idx") or shifted_by is not None)
+        ctx.check(ok, "R-C13.7", key, hf.where,
+                  {"method_parameters": "U, x: U", "parent_parameters": "T", "index_of_U_after": new_U.attrs.get("idx") if isinstance(new_U, Tok) else None,
+                   "index_of_x_after": new_x.attrs.get("idx") if isinstance(new_x, Tok) else None, "x_is_typed_by_the_parameter_with_index": refers_to},
+                  "a method's own parameters are moved behind the parent type's parameters, but the references inside a const parameter's type are "
+                  "not: `x: U` ends up typed by one of the PARENT's parameters")
+    except (Unsupported, Raised) as e:
+        ctx.undecided("R-C13.7", key, hf.where, str(e))
